@@ -35,6 +35,17 @@ CHECKS["C08"] = dict(
     technique="Coq proof (quoted string round trip over regenerated escape table) + exhaustive/generated round-trip exploration",
     design="4/C08")
 
+CHECKS["C03"] = dict(
+    text="Coq theorems about the CollectedErrors algebra: every raised error lies at or below a kept nulled position; the outermost nulled positions are independent of the arrival order of errors and of dropping (cancelling) attempts that lie below another handled position. The schedule quantifier itself is explored: a controlled event loop completes awaitables in chosen orders (all permutations for small sets) and the response must equal the implementation's fully synchronous run, be well formed, keep root mutation fields serial, and every memoised sub-selection must equal a fresh computation",
+    note="theorems are _partial w.r.t. the property: the asyncio runtime (gather/cancel, CPython allocator) is not modelled; completion orders are explored, address reuse is provoked and detected, not enumerated",
+    technique="Coq proof (error/null-position algebra) + controlled-event-loop schedule exploration with memo monitor",
+    design="4/C03", category="proof")
+CHECKS["C07"] = dict(
+    text="Coq theorems about the pull-driven subscription pipeline machine for every source, every per-event execution function and every interleaving of pulls/source readiness/callback completion: delivered ++ still-due = the specified stream (one response per event before the first failure, in order, then failure or end); tied to the code by running real subscriptions on generated schemas/documents/event sequences/failure positions/source kinds/timings: response i = execute_sync(event i) = Spec model (C02's oracle), count/order/termination, creation failures -> single errors-only response, recorded traces accepted by the extracted machine",
+    note="per-event oracle limited to the C02 fragment; asyncio interleavings are explored by timing modes, not enumerated; documents are validated first (root-level @skip/@include is rejected by validation)",
+    technique="Coq proof (pipeline machine invariant) + extraction-based correspondence and trace acceptance",
+    design="4/C07")
+
 NOT_YET = {}
 
 
